@@ -48,6 +48,23 @@ def arms_on(prog, fa, adt_path, pred):
     raise AnchorMissing('%s: switch on %s' % (fa.fn.short(), adt_path))
 
 
+def all_arm_heads(prog, fa, adt_path, pred, variant):
+    """head blocks of `variant`'s arm in EVERY switch on a discriminant of adt_path (the code after a side
+    selection may exist once per side: see mirinline.split_param_diamonds)"""
+    names = {v['discr']: v['name'] for v in prog.adt(adt_path)['variants']}
+    out = []
+    for b in sorted(fa.cfg.reach):
+        t = fa.blocks[b]['t']
+        if t['k'] != 'switch':
+            continue
+        e = fa.operand(t['d'], (b, len(fa.blocks[b]['s'])))
+        if e[0] == 'discr' and adt_head(e[2]) == adt_path and pred(e[1]):
+            for (v, tgt) in t['ts']:
+                if names.get(v) == variant:
+                    out.append(tgt)
+    return out
+
+
 def push_calls(fa):
     """calls that enqueue an event: [(bb, kind, args)] kind in push_sim / push"""
     out = []
@@ -329,14 +346,16 @@ def check_C16(ctx, rep):
     if 'BlockOutgoing' not in arms:
         rep.fail_closed('C16.R1', 'do_scheduled_action: BlockOutgoing arm')
         return ''
-    head = arms['BlockOutgoing']
-    region = fa.cfg.reachable_from(head)
+    heads = all_arm_heads(prog, fa, 'maybenot::action::TriggerAction', lambda e: True, 'BlockOutgoing') or [arms['BlockOutgoing']]
+    region = set()
+    for head in heads:
+        region |= fa.cfg.reachable_from(head)
     rs = lambda pe, val: is_field(pe, 'blocking_until', 'SimState') or is_field(pe, 'blocking_bypassable', 'SimState')
     pf = an.paths(ds, history=True, record_stores=rs, tag='blk')
     # returns in the arm
     n_ret = 0
     for (b, k, v) in ret_defs(fa):
-        if b not in region or not fa.cfg.dominates(head, b):
+        if b not in region or not any(fa.cfg.dominates(head, b) for head in heads):
             continue
         n_ret += 1
         ok = v[0] == 'agg' and v[2] == 'Some'
@@ -611,7 +630,7 @@ def peek_nonstrict(ctx, rep, rid, fname, what):
         mins = []
         for sc in scopes:
             for (b, f, a, t) in calls(an.get(sc)):
-                cs = callee_str(f)
+                cs = callee_decl(f) or callee_str(f)
                 if cs.endswith('Iterator::min') or cs.endswith('Iterator::min_by') or cs.endswith('Iterator::min_by_key') or cs.endswith('Iterator::fold') or cs.endswith('Iterator::reduce'):
                     mins.append((sc, a))
         rep.ob(rid, fn, 'minimum-taken', bool(mins), 'min/fold calls: %d' % len(mins))
@@ -1409,7 +1428,7 @@ def check_queue_tags(ctx, rep, rid):
         isc = [i + 1 for i, v in enumerate(fn.dbg) if False]
         pi = None
         for v in fn.dbg:
-            if v['name'] == 'is_client' and not v['p']['pr']:
+            if v['name'] == 'is_client' and not v['p']['pr'] and 'inl' not in v and 1 <= v['p']['l'] <= fn.argc:
                 pi = v['p']['l']
         for b in sorted(fa.cfg.reach):
             t = fa.blocks[b]['t']
